@@ -608,6 +608,273 @@ func scnMixUDP(t *testing.T, seed int64, n int) {
 	synctest.Wait()
 }
 
+// ---------------------------------------------------------------- observation / block-wise situations on real connections (hook h1)
+
+// obscancel: a notification is still inside its callback while the application cancels the observation (the
+// deregistration request and its response pass through the same connection meanwhile); later notifications reach
+// the connection's handler.
+func scnObsCancelUDP(t *testing.T, n int) {
+	w := newUDP(false)
+	w.handler = func(rw *responsewriter.ResponseWriter[*udpclient.Conn], r *pool.Message) {
+		end := hold(r)
+		end()
+	}
+	var regTok message.Token
+	var mu sync.Mutex
+	w.onSent = func(m *pool.Message) {
+		if m.Code() != codes.GET {
+			return
+		}
+		if v, err := m.Observe(); err == nil && v == 0 {
+			mu.Lock()
+			regTok = append(message.Token(nil), m.Token()...)
+			mu.Unlock()
+			w.inject(reply(m, message.Acknowledgement, codes.Content, m.MessageID(), "first", 2))
+			for i := 0; i < n; i++ {
+				time.Sleep(time.Millisecond)
+				w.inject(reply(m, message.NonConfirmable, codes.Content, w.nextMID(), fmt.Sprintf("n%d", i), 3+i))
+			}
+		} else {
+			w.inject(reply(m, message.Acknowledgement, codes.Content, m.MessageID(), "bye", -1))
+		}
+	}
+	release := make(chan struct{})
+	ctx, cancel := context.WithTimeout(context.Background(), 30*time.Second)
+	defer cancel()
+	obs, err := w.cc.Observe(ctx, "/o", func(m *pool.Message) {
+		end := hold(m)
+		if b, _ := m.ReadBody(); string(b) == "n0" {
+			<-release // this notification stays in its callback
+		}
+		end()
+	})
+	synctest.Wait()
+	time.Sleep(50 * time.Millisecond)
+	synctest.Wait()
+	if err == nil {
+		done := make(chan struct{})
+		go func() { defer close(done); _ = obs.Cancel(ctx) }()
+		synctest.Wait()
+		time.Sleep(50 * time.Millisecond)
+		synctest.Wait()
+		close(release)
+		<-done
+		// a notification that was on its way
+		mu.Lock()
+		tok := regTok
+		mu.Unlock()
+		late := pool.NewMessage(context.Background())
+		late.SetToken(tok)
+		w.inject(reply(late, message.NonConfirmable, codes.Content, w.nextMID(), "late", 40))
+	} else {
+		close(release)
+	}
+	synctest.Wait()
+	_ = w.cc.Close()
+	synctest.Wait()
+}
+
+// scriptedBlocks: a peer that serves `body` in blocks of 16 under whatever token the GET carries
+func blockReply(req *pool.Message, typ message.Type, mid int32, body []byte, num int, obs int) *pool.Message {
+	m := pool.NewMessage(context.Background())
+	m.SetCode(codes.Content)
+	m.SetToken(req.Token())
+	m.SetType(typ)
+	m.SetMessageID(mid)
+	if obs >= 0 {
+		m.SetObserve(uint32(obs))
+	}
+	m.SetContentFormat(message.AppOctets)
+	end := (num + 1) * 16
+	more := true
+	if end >= len(body) {
+		end, more = len(body), false
+	}
+	v, _ := blockwise.EncodeBlockOption(blockwise.SZX16, int64(num), more)
+	m.SetOptionUint32(message.Block2, v)
+	m.SetBody(bytes.NewReader(body[num*16 : end]))
+	return m
+}
+
+// obsblock: notifications whose body takes several blocks: the layer fetches the rest under a new token and hands the
+// reassembled message to the callback.
+func scnObsBlockUDP(t *testing.T, n int) {
+	w := newUDP(true)
+	body := bytes.Repeat([]byte("0123456789abcdef"), 2)
+	body = append(body, []byte("tail")...)
+	w.onSent = func(m *pool.Message) {
+		if m.Code() != codes.GET {
+			return
+		}
+		if bv, err := m.GetOptionUint32(message.Block2); err == nil {
+			if _, num, _, err := blockwise.DecodeBlockOption(bv); err == nil && num > 0 {
+				w.inject(blockReply(m, message.Acknowledgement, m.MessageID(), body, int(num), -1))
+				return
+			}
+		}
+		if v, err := m.Observe(); err == nil && v == 0 {
+			w.inject(reply(m, message.Acknowledgement, codes.Content, m.MessageID(), "first", 2))
+			for i := 0; i < n; i++ {
+				time.Sleep(20 * time.Millisecond)
+				w.inject(blockReply(m, message.NonConfirmable, w.nextMID(), body, 0, 3+i))
+			}
+		} else {
+			w.inject(reply(m, message.Acknowledgement, codes.Content, m.MessageID(), "bye", -1))
+		}
+	}
+	ctx, cancel := context.WithTimeout(context.Background(), 30*time.Second)
+	defer cancel()
+	obs, err := w.cc.Observe(ctx, "/o", func(m *pool.Message) {
+		end := hold(m)
+		if b, _ := m.ReadBody(); len(b) > 5 && !bytes.Equal(b, body) {
+			pool.VerifTraceMark("changed", m)
+		}
+		end()
+	})
+	synctest.Wait()
+	time.Sleep(time.Second)
+	synctest.Wait()
+	if err == nil {
+		_ = obs.Cancel(ctx)
+	}
+	time.Sleep(5 * time.Second)
+	w.cc.CheckExpirations(time.Now())
+	_ = w.cc.Close()
+	synctest.Wait()
+}
+
+// doabandon: a block-wise upload whose caller gives up while the transfer is under way (the peer stops answering after
+// `answered` blocks); the answer to the block that was on its way arrives afterwards; then the housekeeping tick.
+func scnDoAbandonUDP(t *testing.T, answered int) {
+	w := newUDP(true)
+	var mu sync.Mutex
+	var last *pool.Message
+	count := 0
+	w.onSent = func(m *pool.Message) {
+		if m.Code() != codes.POST {
+			return
+		}
+		bv, err := m.GetOptionUint32(message.Block1)
+		if err != nil {
+			return
+		}
+		_, num, more, _ := blockwise.DecodeBlockOption(bv)
+		mu.Lock()
+		count++
+		c := count
+		mu.Unlock()
+		r := pool.NewMessage(context.Background())
+		r.SetCode(codes.Continue)
+		r.SetToken(m.Token())
+		r.SetType(message.Acknowledgement)
+		r.SetMessageID(m.MessageID())
+		v, _ := blockwise.EncodeBlockOption(blockwise.SZX16, num, more)
+		r.SetOptionUint32(message.Block1, v)
+		if c <= answered {
+			w.inject(r)
+			return
+		}
+		mu.Lock()
+		if last == nil {
+			last = r
+		}
+		mu.Unlock()
+	}
+	ctx, cancel := context.WithTimeout(context.Background(), 1500*time.Millisecond)
+	body := bytes.Repeat([]byte{0x5a}, 70)
+	req := w.cc.AcquireMessage(ctx)
+	req.SetCode(codes.POST)
+	tok, _ := message.GetToken()
+	req.SetToken(tok)
+	_ = req.SetPath("/up")
+	req.SetContentFormat(message.AppOctets)
+	req.SetBody(bytes.NewReader(body))
+	endReq := hold(req) // the request is the caller's for the whole call and beyond
+	resp, err := w.cc.Do(req)
+	if err == nil {
+		end := hold(resp)
+		end()
+		w.cc.ReleaseMessage(resp)
+	}
+	cancel()
+	synctest.Wait()
+	mu.Lock()
+	l := last
+	mu.Unlock()
+	if l != nil {
+		w.inject(l) // the late answer
+		synctest.Wait()
+	}
+	endReq()
+	w.cc.ReleaseMessage(req)
+	time.Sleep(5 * time.Second)
+	w.cc.CheckExpirations(time.Now())
+	synctest.Wait()
+	_ = w.cc.Close()
+	synctest.Wait()
+}
+
+// bwsweep: an upload from the peer stalls after its first blocks; long after the entry's validity the housekeeping tick
+// runs while (`order` = both), before (sweepfirst) or after (blockfirst) the last block of the same token is handled;
+// then the transfer is repeated from its first block.
+func scnBWSweepUDP(t *testing.T, order string) {
+	w := newUDP(true)
+	w.handler = func(rw *responsewriter.ResponseWriter[*udpclient.Conn], r *pool.Message) {
+		end := hold(r)
+		_, _ = r.ReadBody()
+		time.Sleep(time.Millisecond)
+		_ = rw.SetResponse(codes.Changed, message.TextPlain, strings.NewReader("done"))
+		end()
+	}
+	body := bytes.Repeat([]byte{0x33}, 40)
+	blk := func(num int) *pool.Message {
+		m := pool.NewMessage(context.Background())
+		m.SetCode(codes.PUT)
+		m.SetToken(message.Token{0xB5, 0x01})
+		m.SetType(message.Confirmable)
+		m.SetMessageID(w.nextMID())
+		_ = m.SetPath("/up")
+		end := (num + 1) * 16
+		more := true
+		if end >= len(body) {
+			end, more = len(body), false
+		}
+		v, _ := blockwise.EncodeBlockOption(blockwise.SZX16, int64(num), more)
+		m.SetOptionUint32(message.Block1, v)
+		m.SetBody(bytes.NewReader(body[num*16 : end]))
+		return m
+	}
+	for round := 0; round < 2; round++ {
+		w.inject(blk(0))
+		synctest.Wait()
+		w.inject(blk(1))
+		synctest.Wait()
+		if round == 0 {
+			time.Sleep(10 * time.Second) // the entry's validity is 3 s
+			switch order {
+			case "sweepfirst":
+				w.cc.CheckExpirations(time.Now())
+				w.inject(blk(2))
+			case "blockfirst":
+				w.inject(blk(2))
+				w.cc.CheckExpirations(time.Now())
+			default:
+				done := make(chan struct{})
+				go func() { defer close(done); w.inject(blk(2)) }()
+				w.cc.CheckExpirations(time.Now())
+				<-done
+			}
+		} else {
+			w.inject(blk(2))
+		}
+		synctest.Wait()
+		time.Sleep(10 * time.Millisecond)
+		synctest.Wait()
+	}
+	_ = w.cc.Close()
+	synctest.Wait()
+}
+
 // ---------------------------------------------------------------- tcp
 
 func scnTCP(t *testing.T, name string, arg string) {
@@ -764,6 +1031,21 @@ func runScenario(t *testing.T, f []string) (trace []string) {
 		if len(f) > 3 {
 			arg = f[3]
 		}
+		// path programs over the tracking pool (paths_test.go): the trace is the tracking pool's
+		if f[1] == "obs" || f[1] == "bw" {
+			defer func() {
+				if r := recover(); r != nil {
+					trace = []string{fmt.Sprintf("panic %v", r)}
+				}
+			}()
+			pathsFresh = arg == "fresh"
+			if f[1] == "obs" {
+				trace = pathsObs(f[2])
+			} else {
+				trace = pathsBw(f[2])
+			}
+			return
+		}
 		switch f[1] + ":" + f[2] {
 		case "udp:path":
 			scnPathUDP(t, arg)
@@ -781,6 +1063,17 @@ func runScenario(t *testing.T, f []string) (trace []string) {
 		case "udp:observe":
 			n, _ := strconv.Atoi(arg)
 			scnObserveUDP(t, n)
+		case "udp:obscancel":
+			n, _ := strconv.Atoi(arg)
+			scnObsCancelUDP(t, n)
+		case "udp:obsblock":
+			n, _ := strconv.Atoi(arg)
+			scnObsBlockUDP(t, n)
+		case "udp:doabandon":
+			n, _ := strconv.Atoi(arg)
+			scnDoAbandonUDP(t, n)
+		case "udp:bwsweep":
+			scnBWSweepUDP(t, arg)
 		case "udp:blockwise":
 			n, _ := strconv.Atoi(arg)
 			scnBlockwiseUDP(t, n)
